@@ -598,22 +598,44 @@ def replay_step(o):
     extras = [b"", good, b"$GNGLL,5327.04319,N,00214.41396,W,223232.00,A,A*68\r\n" + good,
               bytes.fromhex("d3000047ea4b") + good, bytes.fromhex("d300013e7b3538") + good]
     variants = []
+    q0 = int(inp.get("quitonerror", 1))
     for ex_ in extras:
-        for q in (int(inp.get("quitonerror", 1)), 0, 1):
+        for q in dict.fromkeys((q0, 0, 1, 2)):
             variants.append((data + ex_, q))
             variants.append((ex_[:-len(good)] + data + good if ex_ else data, q))
     optsets = [(pf, parsing, val)] + ([(7, True, 1), (7, True, 0)] if (pf, parsing) != (7, True) else [])
-    variants = [(d2, q, o_) for o_ in optsets for (d2, q) in variants]
-    for d2, q, (pf, parsing, val) in variants:
-        q = int(q) if int(q) in (0, 1) else 0
+    h0 = bool(inp.get("errorhandler", True))
+    variants = [(d2, q, o_, h) for o_ in optsets for (d2, q) in variants for h in dict.fromkeys((h0, True, False))]
+    import logging
+
+    class _Count(logging.Handler):
+        def __init__(self):
+            super().__init__()
+            self.n = 0
+
+        def emit(self, record):
+            if record.levelno >= logging.ERROR:
+                self.n += 1
+
+    for d2, q, (pf, parsing, val), has_handler in variants:
+        q = int(q) if int(q) in (0, 1, 2) else 0
         reports = []
         real = []
+        counter = _Count()
+        lg = logging.getLogger("pyubx2.ubxreader")
+        lg.addHandler(counter)
+        old_prop = lg.propagate
+        lg.propagate = False
         try:
             for raw, parsed in UBXReader(io.BytesIO(d2), protfilter=pf, parsing=parsing, validate=val, msgmode=mode,
-                                         parsebitfield=pbf, labelmsm=lm, quitonerror=q, errorhandler=lambda e: reports.append(e)):
+                                         parsebitfield=pbf, labelmsm=lm, quitonerror=q,
+                                         errorhandler=(lambda e: reports.append(e)) if has_handler else None):
                 real.append((raw, None if parsed is None else str(parsed)))
         except Exception as e:  # noqa
             real.append(("EXC", type(e).__name__))
+        finally:
+            lg.removeHandler(counter)
+            lg.propagate = old_prop
         spec, nrep, pos, guard = [], 0, 0, 0
         while guard < 100000:
             guard += 1
@@ -624,11 +646,18 @@ def replay_step(o):
                 spec.append((raw, None if parsed is None else str(parsed)))
             if kind == 3 and q == 1:
                 nrep += 1
-        if real != spec or len(reports) != nrep:
+            if kind == 3 and q == 2:
+                spec.append(("EXC", None))
+                break
+        nreal = (len(reports) if has_handler else counter.n)
+        same = len(real) == len(spec) and all(a == b or (a[0] == "EXC" and b[0] == "EXC") for a, b in zip(real, spec))
+        other = counter.n if has_handler else len(reports)  # reports must go to exactly one of handler / log
+        if not same or nreal != nrep or other != 0:
             info.update(reproduced=True, stream=d2.hex(), options={"protfilter": pf, "parsing": parsing, "validate": val,
-                                                                   "msgmode": mode, "quitonerror": q},
-                        observed=f"real reader: {len(real)} items / {len(reports)} reports; specification: {len(spec)} items / {nrep} reports; "
-                                 f"real {real[:3]!r} spec {spec[:3]!r}"[:600])
+                                                                   "msgmode": mode, "quitonerror": q,
+                                                                   "errorhandler": has_handler},
+                        observed=f"real reader: {len(real)} items / {nreal} reports (+{other} on the other channel); specification: "
+                                 f"{len(spec)} items / {nrep} reports; real {real[:3]!r} spec {spec[:3]!r}"[:600])
             return info
     info["note"] = "real reader and specification agree on the counter-model's stream (socket-style or relational obligation)"
     return info
